@@ -18,6 +18,8 @@ SCENARIOS_QUICK = [
     # a requested descriptor is created / deleted while the request is served ('post:' / 'pre:' operations run
     # unscheduled after / before every schedule and restore the start state)
     ('R_descr_dA', 'W_add_dA', 'post:W_del_dA'), ('R_descr_dA', 'W_del_dA', 'pre:W_add_dA'),
+    # the waveform path: real-time sample transactions (written many times per second) against GetMdState
+    ('R_state_rt', 'W_rt'), ('R_state_all', 'W_rt'),
 ]
 SCENARIOS_THOROUGH = SCENARIOS_QUICK + [
     ('R_state_m1', 'W_metric_m1', 'W_comp_vmd'), ('R_state_all', 'R_descr', 'W_descr_m1'),
